@@ -35,7 +35,7 @@ Proof.
   assert (W : wrapu64 (r_seq s + 1) = r_seq s + 1) by (apply wrapu64_id; unfold UINT64_MAX; lia).
   assert (WB : forall f, wrapu64 (r_seq s + Z.of_nat (length (filter f (r_pool s)))) = r_seq s + Z.of_nat (length (filter f (r_pool s)))).
   { intros f. apply wrapu64_id. pose proof (filter_len_le f (r_pool s)). unfold UINT64_MAX. lia. }
-  destruct ev as [tx bypass|tx|txs|p|p]; unfold rstep.
+  destruct ev as [tx bypass|tx|txs|p|p|tx]; unfold rstep.
   - destruct (find_entry tx (r_pool s)) as [e0|] eqn:F.
     + constructor; simpl; auto.
       * intros e I. destruct (B e I). lia.
@@ -74,6 +74,9 @@ Proof.
     + intros e x I Ix NZ. apply in_map_iff in Ix. destruct Ix as (y & E & Iy). destruct (pr_id y =? p); subst x; simpl.
       * destruct (B e I). split; [intros _; exists (r_clock s); split; auto; lia | intros _; lia].
       * apply D; auto.
+  - constructor; simpl; auto.
+    + intros e I. destruct (B e I). lia.
+    + intros x I. destruct (C x I) as [Q1 Q2]. split; auto. intros T H. specialize (Q2 T H). lia.
 Qed.
 
 Inductive rreach : rst -> Prop :=
@@ -126,3 +129,22 @@ Proof.
   destruct (served_only_if_announced_or_recent s p tx R S) as [H|(x' & e' & FP' & FE' & [Z0|(T & SN & L)])]; [congruence| |];
     rewrite FP in FP'; injection FP' as <-; rewrite FE in FE'; injection FE' as <-; [congruence|]. specialize (LATE T SN). lia.
 Qed.
+
+(* Only the admission event puts a transaction into the mempool: a privately broadcast transaction (EPrivate) stays out of it, and so
+   out of reach of GETDATA on ordinary connections, until it is received back from the network or submitted normally (EAdd). *)
+Theorem pool_grows_only_by_admission s ev tx e :
+  find_entry tx (r_pool (rstep s ev)) = Some e -> find_entry tx (r_pool s) = None -> exists b, ev = EAdd tx b.
+Proof.
+  assert (FF : forall f l, find_entry tx (filter f l) = Some e -> find_entry tx l = None -> False).
+  { intros f l. induction l as [|x r IH]; simpl; [discriminate|]. destruct (f x); simpl; destruct (m_tx x =? tx); try discriminate; auto. }
+  destruct ev as [t bypass|t|txs|p|p|t]; unfold rstep; simpl.
+  - destruct (find_entry t (r_pool s)) eqn:F; simpl; [congruence|]. destruct (t =? tx) eqn:E; [apply Z.eqb_eq in E; subst; eauto | congruence].
+  - intros A B. exfalso. eapply FF; eauto.
+  - intros A B. exfalso. eapply FF; eauto.
+  - destruct (find_peer p (r_peers s)); simpl; congruence.
+  - congruence.
+  - congruence.
+Qed.
+Theorem private_submission_not_served s p tx : find_entry tx (r_pool s) = None -> mem tx (r_recent s) = false ->
+  serve_getdata (rstep s (EPrivate tx)) p tx = false.
+Proof. intros F M. unfold serve_getdata, rstep. simpl. destruct (find_peer p (r_peers s)); auto. rewrite F, M. reflexivity. Qed.
